@@ -19,15 +19,21 @@ int __real_regexec(const regex_t *preg, const char *s, size_t nmatch, regmatch_t
 int __real_regcomp(regex_t *preg, const char *pattern, int cflags);
 void __real_regfree(regex_t *preg);
 /* the patterns that are currently compiled: regexec/regfree on anything else is undefined behaviour */
-static const regex_t *rx_live[64]; static int rx_nlive = 0; static int rx_ub = 0;
-static int rx_is_live(const regex_t *p) { for(int i = 0; i < rx_nlive; i++) if(rx_live[i] == p) return 1; return 0; }
+/* (the registry is shared by the threads of the THREADS op: guarded by a mutex of the harness's own) */
+#include <pthread.h>
+static pthread_mutex_t rx_mu = PTHREAD_MUTEX_INITIALIZER;
+static const regex_t *rx_live[512]; static int rx_nlive = 0; static int rx_ub = 0;
+static int rx_is_live_nl(const regex_t *p) { for(int i = 0; i < rx_nlive; i++) if(rx_live[i] == p) return 1; return 0; }
+static int rx_is_live(const regex_t *p) { pthread_mutex_lock(&rx_mu); int r = rx_is_live_nl(p); pthread_mutex_unlock(&rx_mu); return r; }
 void __wrap_regfree(regex_t *preg) {
-    if(!rx_is_live(preg)) { rx_ub++; return; }
+    pthread_mutex_lock(&rx_mu);
+    if(!rx_is_live_nl(preg)) { rx_ub++; pthread_mutex_unlock(&rx_mu); return; }
     for(int i = 0; i < rx_nlive; i++) if(rx_live[i] == preg) { rx_live[i] = rx_live[--rx_nlive]; break; }
+    pthread_mutex_unlock(&rx_mu);
     __real_regfree(preg);
 }
 int __wrap_regexec(const regex_t *preg, const char *s, size_t nmatch, regmatch_t pm[], int eflags) {
-    if(!rx_is_live(preg)) { rx_ub++; if(rx_on) rx_app(" rx=U", 5); return 1; }
+    if(!rx_is_live(preg)) { pthread_mutex_lock(&rx_mu); rx_ub++; pthread_mutex_unlock(&rx_mu); if(rx_on) rx_app(" rx=U", 5); return 1; }
     int r = __real_regexec(preg, s, nmatch, pm, eflags);
     if(rx_on && rx_dl) {
         char which = preg == rx_dl->hdr_regex ? 'h' : preg == rx_dl->dl_regex ? 'p' : preg == rx_dl->end_regex ? 'e' : 'u';
@@ -42,7 +48,9 @@ int __wrap_regexec(const regex_t *preg, const char *s, size_t nmatch, regmatch_t
 }
 int __wrap_regcomp(regex_t *preg, const char *pattern, int cflags) {
     int r = __real_regcomp(preg, pattern, cflags);
-    if(r == 0 && rx_nlive < 64 && !rx_is_live(preg)) rx_live[rx_nlive++] = preg;
+    pthread_mutex_lock(&rx_mu);
+    if(r == 0 && rx_nlive < 512 && !rx_is_live_nl(preg)) rx_live[rx_nlive++] = preg;
+    pthread_mutex_unlock(&rx_mu);
     if(rx_on) { char t[32]; rx_app(" rc=", 4); rx_hex((const unsigned char *)pattern, strlen(pattern)); snprintf(t, sizeof t, ":%d", r == 0 ? 0 : 1); rx_app(t, strlen(t)); }
     return r;
 }
